@@ -171,6 +171,15 @@ class GroupInfo:
                 if r is None:
                     raise NotImplementedError
                 return [x], [ca.densify(r)]
+            if key == "alg_sugar":
+                x, y, sc = self._x("x"), self._x("y"), SX.sym("s")
+                X, Y = alg.elem(x), alg.elem(y)
+                outs = [(X + Y).param, (X - Y).param, (-X).param, (sc * X).param, (X * sc).param, X.vee(), alg.wedge(x).param]
+                return [x, y, sc], [ca.densify(o) for o in outs]
+            if key == "grp_sugar":
+                X, x = self._X("X"), self._x("x")
+                Xe, xe = G.elem(X), alg.elem(x)
+                return [X, x], [ca.densify((Xe + xe).param), ca.densify((Xe - xe).param)]
             if key in ("gJl", "gJr"):
                 X = self._X()
                 e = G.elem(X)
